@@ -200,9 +200,17 @@ static void do_case(char *line) {
 }
 
 int main(int argc, char **argv) {
+    /* one child runs consecutive cases until one of them kills it; each case's output is a
+     * newline-terminated line in the pipe, the line of a case that dies is completed by <crash> */
     FILE *f = hc_open(argc, argv); char *l;
-    static char buf[1 << 17];
+    char **cases = NULL; size_t n = 0, cap = 0;
     while ((l = hc_next(f))) {
+        if (n == cap) { cap = cap ? 2 * cap : 1024; cases = realloc(cases, cap * sizeof *cases); }
+        cases[n++] = strdup(l);
+    }
+    static char buf[1 << 17];
+    size_t k = 0;
+    while (k < n) {
         int pfd[2];
         fflush(stdout);
         if (pipe(pfd)) { perror("pipe"); return 2; }
@@ -210,24 +218,38 @@ int main(int argc, char **argv) {
         if (pid < 0) { perror("fork"); return 2; }
         if (pid == 0) {
             close(pfd[0]); out_fd = pfd[1];
-            alarm(10);
-            do_case(l);
+            for (size_t i = k; i < n; i++) {
+                alarm(10);
+                do_case(cases[i]);
+                emit("\n"); flush_out();
+            }
             _exit(0);
         }
         close(pfd[1]);
-        size_t n = 0; ssize_t r;
-        while ((r = read(pfd[0], buf + n, sizeof(buf) - 1 - n)) > 0) n += (size_t)r;
+        size_t have = 0; ssize_t r;                 /* bytes of the current (incomplete) line */
+        while ((r = read(pfd[0], buf + have, sizeof(buf) - 1 - have)) > 0) {
+            have += (size_t)r;
+            char *nl;
+            while ((nl = memchr(buf, '\n', have))) {
+                size_t len = (size_t)(nl - buf) + 1;
+                fwrite(buf, 1, len, stdout); k++;
+                memmove(buf, buf + len, have - len); have -= len;
+            }
+            if (have >= sizeof(buf) - 1) have = 0;    /* absurdly long line: drop */
+        }
         close(pfd[0]);
         int st = 0; waitpid(pid, &st, 0);
-        buf[n] = 0;
-        for (size_t i = 0; i < n; i++) if (buf[i] == '\n') buf[i] = ' ';
-        fputs(buf, stdout);
-        if (!(WIFEXITED(st) && WEXITSTATUS(st) == 0)) {
-            if (WIFSIGNALED(st) && WTERMSIG(st) == SIGALRM) printf("%s<timeout>", n ? " | " : "");
-            else if (WIFSIGNALED(st)) printf("%s<crash>", n ? " | " : "");
-            else printf("%s<exit %d>", n ? " | " : "", WEXITSTATUS(st));
+        if (k < n && !(WIFEXITED(st) && WEXITSTATUS(st) == 0)) {      /* the child died inside case k */
+            fwrite(buf, 1, have, stdout);
+            const char *sep = have ? " | " : "";
+            if (WIFSIGNALED(st) && WTERMSIG(st) == SIGALRM) printf("%s<timeout>\n", sep);
+            else if (WIFSIGNALED(st)) printf("%s<crash>\n", sep);
+            else printf("%s<exit %d>\n", sep, WEXITSTATUS(st));
+            k++;
+        } else if (k < n && have == 0 && WIFEXITED(st)) {
+            /* cannot happen: the child exits 0 only after the last case */
+            printf("<exit 0>\n"); k++;
         }
-        printf("\n");
     }
     return 0;
 }
